@@ -23,7 +23,7 @@ PROPERTY = "C09"
 MANIFEST_INFO = {
     "engine": "B",
     "design_ref": "DESIGN.md section 5, C09",
-    "technique": "exhaustive enumeration of well-formed TestResult histories (0-3 tests x six outcomes x exc_info / reason / details forms, run- and test-level tags, explicit or implicit times) x detail payload shapes (0-2 details, 11 chunk lists (one cutting a UTF-8 sequence in two) incl. empty chunks, 4 content types with parameters, non-ASCII names and reasons), each replayed on a fresh real ExtendedToStreamDecorator -> {stream recorder, StreamToExtendedDecorator -> extended recorder} pipeline; stream well-formedness and per-test round-trip equality oracles",
+    "technique": "exhaustive enumeration of well-formed TestResult histories (0-3 tests x six outcomes x exc_info / reason / details forms, run- and test-level tags incl. a tag change between outcome and stopTest, explicit or implicit times) x detail payload shapes (0-2 details, 11 chunk lists (one cutting a UTF-8 sequence in two) incl. empty chunks, 4 content types with parameters, non-ASCII and empty names, non-ASCII reasons), each replayed on a fresh real ExtendedToStreamDecorator -> {stream recorder, StreamToExtendedDecorator -> extended recorder} pipeline; stream well-formedness and per-test round-trip equality oracles",
     "level_text": "Every single-test history over all ~9000 (outcome, form, payload) variants x 4 tag/time settings, every two-test history over a 60-variant alphabet (thorough: 3 tests over 14 variants, 2 tests over 120), is pushed through the real converters. Between them the stream must show per test one 'inprogress', then each detail's chunks in order with eof exactly on its last chunk, then exactly one final status; at the far end each test must reappear as one startTest/outcome/stopTest bracket with the same id, the mapped outcome (error -> failure), the tags current at its outcome, the supplied times, the skip reason and every non-empty detail with identical bytes and content type.",
     "level_note": "Content types are within the C16 round-trip envelope; details consisting only of empty chunks need not reappear; without explicit time() only the presence of timestamps is checked.",
 }
@@ -44,6 +44,8 @@ TYPES = (
     ContentType("text", "csv", {"fields": "ts,level", "charset": "utf8"}),
 )
 NAMES = ("d1", "détail")
+# a second name set: the empty string is a legal detail name too
+NAME_SETS = (NAMES, ("", "d1"))
 OUTCOMES = ("addSuccess", "addError", "addFailure", "addSkip", "addExpectedFailure", "addUnexpectedSuccess")
 MAPPED = {"addSuccess": "addSuccess", "addError": "addFailure", "addFailure": "addFailure", "addSkip": "addSkip", "addExpectedFailure": "addExpectedFailure", "addUnexpectedSuccess": "addUnexpectedSuccess"}
 FINAL = {"addSuccess": "success", "addError": "fail", "addFailure": "fail", "addSkip": "skip", "addExpectedFailure": "xfail", "addUnexpectedSuccess": "uxsuccess"}
@@ -105,17 +107,21 @@ def variants_small(n_payloads):
     return out
 
 
-def make_details(payload):
+def make_details(payload, names=NAMES):
     d = {}
     for i, (ci, ti) in enumerate(payload):
         chunks = list(CHUNKS[ci])
-        d[NAMES[i]] = Content(TYPES[ti], lambda chunks=chunks: list(chunks))
+        d[names[i]] = Content(TYPES[ti], lambda chunks=chunks: list(chunks))
     return d
 
 
 def run_history(tests, setting):
-    """tests: [(test kind, outcome, form, payload)]; setting: (run_tags, test_tags, explicit_times)"""
-    run_tags, test_tags, explicit = setting
+    """tests: [(test kind, outcome, form, payload)]; setting: (run_tags, test_tags, explicit_times[, name set])
+
+    test_tags == "late": the test's tags are changed once more between its outcome and stopTest
+    (the stream is inspected after the run, as a queue or an event log would hold it)."""
+    run_tags, test_tags, explicit = setting[:3]
+    names = NAME_SETS[setting[3]] if len(setting) > 3 else NAMES
     stream = rec.Stream()
     ext = rec.Ext()
     top = ExtendedToStreamDecorator(CopyStreamResult([stream, StreamToExtendedDecorator(ext)]))
@@ -138,7 +144,7 @@ def run_history(tests, setting):
             reason = None
             exc = None
             if form == "details":
-                details = make_details(payload)
+                details = make_details(payload, names)
                 getattr(top, outcome)(t, details=details)
             elif form == "exc":
                 try:
@@ -151,6 +157,8 @@ def run_history(tests, setting):
                 top.addSkip(t, reason)
             else:
                 getattr(top, outcome)(t)
+            if test_tags == "late":
+                top.tags({"late%d" % n}, {"t%d" % n})
             top.stopTest(t)
             tags = set()
             if run_tags:
@@ -306,16 +314,16 @@ def work_items(tier):
     items = []
     full = variants_full()
     for v in full:
-        for s in ((False, False, True), (True, True, True), (True, False, False), (False, True, False)):
+        for s in ((False, False, True, 1), (True, True, True, 0), (True, False, False, 0), (False, True, False, 1), (True, "late", True, 0)):
             items.append(([("case",) + v], s))
     small = variants_small(8 if tier == "quick" else 18)
     for a, b in itertools.product(small, repeat=2):
-        for s in ((True, True, True), (False, True, False)):
+        for s in ((True, True, True, 0), (False, True, False, 1), (True, "late", False, 0)):
             items.append(([("case",) + a, ("placeholder",) + b], s))
     if tier != "quick":
         tiny = variants_small(2)[::2]
         for a, b, c in itertools.product(tiny, repeat=3):
-            items.append(([("placeholder",) + a, ("case",) + b, ("case",) + c], (True, True, True)))
+            items.append(([("placeholder",) + a, ("case",) + b, ("case",) + c], (True, "late", True, 1)))
     items.append(([], (True, False, True)))
     return items
 
